@@ -617,6 +617,8 @@ pub fn decoder_sweep(tier: Tier, idx: u32, nworkers: u32) -> SweepOut {
         if (b0 as u32) % nworkers != idx {
             continue;
         }
+        // coarse-grained note of where the sweep is, so that a worker killed outright (abort, SIGSEGV) can be reproduced
+        crate::runner::sweep_note(&json!({"kind": "slice_b0", "b0": b0, "thorough": tier == Tier::Thorough}));
         run_bytes(&[b0], &mut out, &mut bump);
         for b1 in 0..=255u8 {
             run_bytes(&[b0, b1], &mut out, &mut bump);
@@ -633,6 +635,7 @@ pub fn decoder_sweep(tier: Tier, idx: u32, nworkers: u32) -> SweepOut {
         if (i0 as u32) % nworkers != idx {
             continue;
         }
+        crate::runner::sweep_note(&json!({"kind": "slice_c0", "i0": i0, "maxlen": maxlen_classes}));
         let mut buf = vec![c0];
         fn rec(buf: &mut Vec<u8>, maxlen: usize, f: &mut dyn FnMut(&[u8])) {
             f(buf);
@@ -654,6 +657,7 @@ pub fn decoder_sweep(tier: Tier, idx: u32, nworkers: u32) -> SweepOut {
         if (i0 as u32) % nworkers != idx {
             continue;
         }
+        crate::runner::sweep_note(&json!({"kind": "slice_u0", "i0": i0}));
         let mut buf = vec![u0];
         fn rec16(buf: &mut Vec<u16>, maxlen: usize, f: &mut dyn FnMut(&[u16])) {
             f(buf);
@@ -685,6 +689,9 @@ pub fn decoder_sweep(tier: Tier, idx: u32, nworkers: u32) -> SweepOut {
             continue;
         }
         let u = u as u16;
+        if u % 256 == 0 || (u as u32) < nworkers * 2 {
+            crate::runner::sweep_note(&json!({"kind": "slice_unit", "from": u, "step": nworkers, "count": 256 / nworkers.max(1) + 2}));
+        }
         let mut one = |seq: &[u16]| {
             n_u16 += 1;
             if let Some(m) = check_u16(&bump, seq) {
@@ -793,7 +800,100 @@ pub fn decoder_random(tier: Tier, idx: u32, out: &mut SweepOut) {
 }
 
 pub fn replay_decoder_item(item: &Value) -> Vec<String> {
-    let bump = Bump::new();
+    let mut bump = Bump::new();
+    let kind = item["kind"].as_str().unwrap_or("");
+    if kind.starts_with("slice_") {
+        // a slice of the exhaustive sweep (noted before a worker died in it): run it again in the same order
+        let mut msgs: Vec<String> = vec![];
+        let mut n = 0u32;
+        let mut fb = |b: &[u8], bump: &mut Bump, msgs: &mut Vec<String>| {
+            if let Some(m) = check_bytes(bump, b) {
+                if msgs.len() < 3 {
+                    msgs.push(m);
+                }
+            }
+        };
+        match kind {
+            "slice_b0" => {
+                let b0 = item["b0"].as_u64().unwrap_or(0) as u8;
+                fb(&[b0], &mut bump, &mut msgs);
+                for b1 in 0..=255u8 {
+                    fb(&[b0, b1], &mut bump, &mut msgs);
+                    if item["thorough"].as_bool().unwrap_or(false) {
+                        for &b2 in BYTE_CLASSES.iter() {
+                            fb(&[b0, b1, b2], &mut bump, &mut msgs);
+                        }
+                    }
+                    n += 1;
+                    if n % 16 == 0 {
+                        bump.reset();
+                    }
+                }
+            }
+            "slice_c0" => {
+                let i0 = item["i0"].as_u64().unwrap_or(0) as usize % BYTE_CLASSES.len();
+                let maxlen = item["maxlen"].as_u64().unwrap_or(4) as usize;
+                let mut stack: Vec<Vec<u8>> = vec![vec![BYTE_CLASSES[i0]]];
+                while let Some(cur) = stack.pop() {
+                    fb(&cur, &mut bump, &mut msgs);
+                    n += 1;
+                    if n % 4096 == 0 {
+                        bump.reset();
+                    }
+                    if cur.len() < maxlen {
+                        for &c in BYTE_CLASSES.iter().rev() {
+                            let mut nx = cur.clone();
+                            nx.push(c);
+                            stack.push(nx);
+                        }
+                    }
+                }
+            }
+            "slice_u0" => {
+                let i0 = item["i0"].as_u64().unwrap_or(0) as usize % U16_CLASSES.len();
+                let mut stack: Vec<Vec<u16>> = vec![vec![U16_CLASSES[i0]]];
+                while let Some(cur) = stack.pop() {
+                    if let Some(m) = check_u16(&bump, &cur) {
+                        if msgs.len() < 3 {
+                            msgs.push(m);
+                        }
+                    }
+                    if cur.len() < 5 {
+                        for &c in U16_CLASSES.iter().rev() {
+                            let mut nx = cur.clone();
+                            nx.push(c);
+                            stack.push(nx);
+                        }
+                    }
+                }
+            }
+            _ => {
+                let from = item["from"].as_u64().unwrap_or(0) as u32;
+                let step = item["step"].as_u64().unwrap_or(1).max(1) as u32;
+                let count = item["count"].as_u64().unwrap_or(1) as u32;
+                for k in 0..count {
+                    let u = from + k * step;
+                    if u > 0xFFFF {
+                        break;
+                    }
+                    let u = u as u16;
+                    let mut seqs: Vec<Vec<u16>> = vec![vec![u]];
+                    for &c in U16_CLASSES.iter() {
+                        seqs.push(vec![c, u]);
+                        seqs.push(vec![u, c]);
+                    }
+                    for sq in seqs {
+                        if let Some(m) = check_u16(&bump, &sq) {
+                            if msgs.len() < 3 {
+                                msgs.push(m);
+                            }
+                        }
+                    }
+                }
+            }
+        }
+        return msgs;
+    }
     if item["kind"] == "u16" {
         let units: Vec<u16> = item["units"].as_array().map(|a| a.iter().map(|x| x.as_u64().unwrap_or(0) as u16).collect()).unwrap_or_default();
         check_u16(&bump, &units).into_iter().collect()
